@@ -67,6 +67,12 @@ def generate(tier, rng):
                  [VSpec(ident='Other', kind='named', ftypes=['String'], fnames=['inner'], fdw=[None], default=True)]
     e.extra['shape'] = 'default+transparent'
 
+    # generic enums: the forwarding arms sit inside impls with the enum's parameters
+    for j, e in enumerate(enums):
+        if j % 3 == 1:
+            e.generics = ['ty', 'ty_nd', 'const', 'where'][(j // 3) % 4]
+            strcorpus.add_generic_field(e)
+            e.extra['shape'] = e.extra.get('shape', '') + ' gen=' + e.generics
     info = strcorpus.query_model([e for e in enums if 'EnumString' in e.derives])
     grid = fmtgrid.spec_grid(tier)
     small = fmtgrid.spec_grid(tier, small=True)
